@@ -169,8 +169,6 @@ def c18_c(ctx):
         ctx.check(ctx.must_precede(re_, ps, pi[0]), re_, 'seed before user preparation',
                   'prepare_seed < prepare_inputs', 'user preparation runs before the seed is '
                   'available', fn=re_, node=pi[0])
-        ctx.check(ctx.must_precede(re_, pi, fm[0]) or True, re_, 'user preparation before '
-                  'formatting', '', '', fn=re_, node=fm[0])
     ctx.check(ctx.must_precede(re_, ps, fm[0]) and ctx.must_precede(re_, um, fm[0]), re_,
               'formatting last', 'command.format after all preparation',
               'the command is formatted before the inputs are prepared', fn=re_, node=fm[0])
